@@ -292,8 +292,15 @@ def main(argv):
     units = P["units"]
     try:
         zv.ensure_vx()
-        with ThreadPoolExecutor(max_workers=max(1, len(units))) as ex:
+        with ThreadPoolExecutor(max_workers=max(1, 2 * len(units))) as ex:
+            vac_f = {u: ex.submit(zv.run_vacuity, u) for u in units}
             results = dict(zip(units, ex.map(lambda u: zv.run_unit_portfolio(u), units)))
+            vac = {}
+            for u, f in vac_f.items():
+                try:
+                    vac[u] = f.result()
+                except Exception as e:  # a refused vacuity extraction is reported, not fatal for the verdict of the main run
+                    vac[u] = (0, [{"n": -1, "where": "vacuity run failed: %s" % str(e)[:300]}])
     except zv.Undecided as e:
         print("UNDECIDED: %s" % e)
         return 2
@@ -331,6 +338,12 @@ def main(argv):
     undecided += assume_scan(results)
     undecided += split_coverage(results)
     undecided += check_assumed(results)
+    # vacuity guard: every probe must have failed (only meaningful when the unit itself was assembled)
+    for u, (n, unreached) in vac.items():
+        if results[u].refused or results[u].compile_error:
+            continue
+        for pr in unreached:
+            undecided.append("vacuity guard: %s: `%s` is unreachable under the contracts (its probe verified)" % (u, pr["where"]))
     if update_baseline:
         base = load_json(BASELINE, {})
         base[pid] = {t: sorted(e["homes"]) for t, e in sorted(cl["per_tag"].items()) if not e.get("implicit")}
@@ -412,6 +425,7 @@ def main(argv):
             "undecided": undecided,
             "stability_reruns": stability,
             "bounded_stand_in": kani_info,
+            "vacuity_probes": {u: {"probes": n, "proved_unreachable": [p["where"] for p in un]} for u, (n, un) in vac.items()},
             "evaluations": (sum((i.get("checks") or 1) for i in kani_info["harnesses"].values()) if kani_info else cl["obligations"]),
             "distinct_nontrivial": (len(kani_info["harnesses"]) if kani_info and P.get("level") == "model_checking" else max(2, len(cl["per_tag"]))),
             "rule": ("one evaluation = one CBMC property of a Kani harness over the stated bound; distinct = harnesses" if kani_info and P.get("level") == "model_checking" else "one evaluation = one tagged obligation line; distinct = tags"),
